@@ -478,7 +478,7 @@ def u_ecb(ctx, u):
     if lib.sm4_ecb_encrypt_finish(c, ob, ctypes.byref(nn)) != 1:
         ctx.stat('info_ecb_partial_total_refused')
     _free(c, kb, ib, ob)
-    ctx.sample({'kind': 'ecb', 'flavour': u['flavour']})
+    ctx.sample({'kind': 'ecb', 'flavour': u['flavour'], 'last_case': dict(locals().get('det') or {}, n=locals().get('n'))})
 
 
 def u_cbc(ctx, u):
@@ -552,7 +552,7 @@ def u_cbc(ctx, u):
                         msg, cuts, want, 'aligned', inplace=True, **det)
             ctx.nontrivial('cbc-stream-inplace', n, k)
         _free(ek, dk)
-    ctx.sample({'kind': 'cbc', 'flavour': u['flavour']})
+    ctx.sample({'kind': 'cbc', 'flavour': u['flavour'], 'last_case': dict(locals().get('det') or {}, n=locals().get('n'))})
 
 
 def _ctr_like(ctx, u, name, prefix, oneshot, blocks, width):
@@ -614,7 +614,7 @@ def _ctr_like(ctx, u, name, prefix, oneshot, blocks, width):
                         msg, cuts, want, 'aligned', inplace=True, **det)
             ctx.nontrivial(name, 'stream-inplace', n, k)
         ek.free()
-    ctx.sample({'kind': name, 'flavour': u['flavour']})
+    ctx.sample({'kind': name, 'flavour': u['flavour'], 'last_case': dict(locals().get('det') or {}, n=locals().get('n'))})
 
 
 def u_ctr(ctx, u):
@@ -629,7 +629,7 @@ def u_cfb(ctx, u):
     lib = ctx.lib
     sbs = [s for s in range(1, 17) if (s - 1) % u['step'] == u['lo']]
     for sb in sbs:
-        dense_t = 4096 if sb == 16 else (1024 if sb in (1, 8) else 512)
+        dense_t = 4096 if sb == 16 else (512 if sb in (1, 8) else 256)
         sub = {'lo': 0, 'step': 1}
         for n in _lens(ctx, sub, dense_q=80, dense_t=dense_t, big=(sb >= 8)):
             key, iv, msg = _rand_key(ctx), ctx.rng.randbytes(16), ctx.rng.randbytes(n)
@@ -712,7 +712,7 @@ def u_ofb(ctx, u):
                         msg, cuts, want, 'aligned', inplace=True, **det)
             ctx.nontrivial('ofb-stream-inplace', n, k)
         ek.free()
-    ctx.sample({'kind': 'ofb', 'flavour': u['flavour']})
+    ctx.sample({'kind': 'ofb', 'flavour': u['flavour'], 'last_case': dict(locals().get('det') or {}, n=locals().get('n'))})
 
 
 def u_xts(ctx, u):
@@ -777,7 +777,7 @@ def u_xts(ctx, u):
     if lib.sm4_xts_encrypt(k1, k2, tb, ib, 15, ob) == 1:
         ctx.stat('info_xts_accepts_less_than_one_block')
     _free(k1, k2, tb, ib, ob)
-    ctx.sample({'kind': 'xts', 'flavour': u['flavour']})
+    ctx.sample({'kind': 'xts', 'flavour': u['flavour'], 'last_case': dict(locals().get('det') or {}, n=locals().get('n'))})
 
 
 # =====================================================================================
@@ -866,7 +866,7 @@ def u_gcm(ctx, u):
             ctx.stat('info_gcm_accepts_ivlen_%d_taglen_%d' % (ivl, t))
         _free(ivb, ob, tb)
     kb.free()
-    ctx.sample({'kind': 'gcm', 'cases': len(cases), 'flavour': u['flavour']})
+    ctx.sample({'kind': 'gcm', 'cases': len(cases), 'flavour': u['flavour'], 'last_case(n,ivlen,taglen,aadlen)': cases[-1] if cases else None})
 
 
 def _gcm_mk(ctx, direction, key, iv, aad, taglen):
@@ -1025,7 +1025,7 @@ def u_ccm(ctx, u):
     if ctx.tier == 'thorough' and u['lo'] == 1 % u['step']:
         # 2^24 bytes: the largest length field edge a test can afford; round trip only
         _ccm_case(ctx, (1 << 24) + 5, 8, 16, 3, reference=False)
-    ctx.sample({'kind': 'ccm', 'cases': len(cases), 'flavour': u['flavour']})
+    ctx.sample({'kind': 'ccm', 'cases': len(cases), 'flavour': u['flavour'], 'last_case(n,noncelen,taglen,aadlen)': cases[-1] if cases else None})
 
 
 def u_cbcmac(ctx, u):
